@@ -330,6 +330,93 @@ def ob_relabel_dtypes():
     return held("%d relabelled / retyped tetrahedra" % n)
 
 
+# ---- union: domain index contract ------------------------------------------------------------------------------------------
+
+UNION_POOL = {"a": [0], "b": [3], "c": [1, 5], "d": [2, 2, 7], "e": [4, 0, 9]}
+
+
+def _pool_grid(key):
+    """a strip of len(indices) triangles with the given domain indices"""
+    di = UNION_POOL[key]
+    n = len(di)
+    v = np.array([[float(i // 2 + (i % 2) * 0.3) for i in range(n + 2)], [float(i % 2) for i in range(n + 2)], [0.1 * i * i for i in range(n + 2)]])
+    e = np.array([[i, i + 1, i + 2] if i % 2 == 0 else [i + 1, i, i + 2] for i in range(n)]).T
+    return SG.make_grid(v, e, np.array(di, dtype="uint32"))
+
+
+def union_spec(parts, mode, explicit):
+    """the documented result: list of per-part new domain index arrays"""
+    out = []
+    if mode == "explicit":
+        return [np.full(len(p), explicit[j]) for j, p in enumerate(parts)]
+    offset = 0
+    for j, p in enumerate(parts):
+        p = np.asarray(p, dtype=int)
+        if mode == "normalize":
+            uniq = sorted(set(p.tolist()))
+            out.append(np.array([offset + uniq.index(x) for x in p]))
+            offset += len(uniq)
+        else:
+            shift = 0 if j == 0 else (out[-1].max() + 1 - p.min())
+            out.append(p + shift)
+    return out
+
+
+def union_contract(keys, mode):
+    from bempp_cl.api.grid.grid import union
+
+    grids = [_pool_grid(k) for k in keys]
+    explicit = [7 * j + 2 for j in range(len(keys))]
+    if mode == "explicit":
+        u = union(grids, domain_indices=explicit)
+    else:
+        u = union(grids, normalize_domain_indices=(mode == "normalize"))
+    spec = union_spec([UNION_POOL[k] for k in keys], mode, explicit)
+    got, pos = [], 0
+    for k in keys:
+        n = len(UNION_POOL[k])
+        got.append(np.asarray(u.domain_indices[pos:pos + n]).astype(int))
+        pos += n
+    if u.number_of_elements != pos:
+        return "union has %d elements, expected %d" % (u.number_of_elements, pos)
+    for j in range(len(keys)):
+        if not np.array_equal(got[j], spec[j]):
+            return "domain indices of part %d are %s, contract gives %s (all parts: %s)" % (j, got[j].tolist(), spec[j].tolist(), [g.tolist() for g in got])
+    # the statement itself, independent of the spec function: parts keep their internal partition and order, different parts never share an index
+    for j in range(len(keys)):
+        orig = np.asarray(UNION_POOL[keys[j]])
+        if mode != "explicit":
+            for a in range(len(orig)):
+                for b in range(len(orig)):
+                    if (orig[a] < orig[b]) != (got[j][a] < got[j][b]):
+                        return "part %d: relabelling is not order preserving / injective" % j
+        for i in range(j):
+            if mode != "explicit" and set(got[i].tolist()) & set(got[j].tolist()):
+                return "parts %d and %d share domain indices %s" % (i, j, sorted(set(got[i].tolist()) & set(got[j].tolist())))
+    if mode == "normalize" and sorted(set(np.concatenate(got).tolist())) != list(range(len(set(np.concatenate(got).tolist())))):
+        return "normalised indices are not 0..N-1"
+    return None
+
+
+def replay_union(keys, mode):
+    msg = union_contract(list(keys), mode)
+    return {"violates": msg is not None, "message": msg}
+
+
+def ob_union(k, mode):
+    """bounded (all k-tuples of the 5 pool grids, with repetition): union relabels the domain indices of each part by an order preserving injection,
+    different parts get disjoint index sets (0..N-1 without gaps when normalised; shifted blocks otherwise; the given constants when explicit)."""
+    n = 0
+    warnings.simplefilter("ignore")
+    for keys in itertools.product(sorted(UNION_POOL), repeat=k):
+        msg = union_contract(list(keys), mode)
+        n += 1
+        if msg:
+            return violated("union(%s, mode=%s): %s" % ([UNION_POOL[x] for x in keys], mode, msg), witness={"parts": [UNION_POOL[x] for x in keys], "mode": mode},
+                            replay={"callable": "checks.c11:replay_union", "kwargs": {"keys": list(keys), "mode": mode}, "confirmed": True}, signature="union/domain-indices/%s" % mode)
+    return held("%d tuples" % n)
+
+
 def main():
     run = Run("C11", "proof")
     thorough = run.tier == "thorough"
@@ -354,10 +441,14 @@ def main():
     for base in ("tetra", "fan3", "octa", "screen2", "two_tets") + (("cube12",) if thorough else ()):
         run.add("sweep[%s]" % base, "bounded", ob_sweep, base, True)
     run.add("relabel+dtypes[tetra]", "bounded", ob_relabel_dtypes)
+    for k in (1, 2, 3) + ((4,) if thorough else ()):
+        for mode in ("normalize", "shift", "explicit"):
+            run.add("union.domain-indices[k=%d,%s]" % (k, mode), "bounded", ob_union, k, mode)
     run.assumed_contract("scipy.sparse csr_matrix / A.T.dot(A) / tocoo / diagonal (get_element_to_element_matrix, _compute_boundary_information, IndexList)",
                          "e2e[i, j] = number of shared vertices; each non-zero once -- covered only by the exhaustive sweep")
     run.bound("sweep: all non-empty sub-complexes of tetrahedron (15), fan (7), octahedron (255), 2x2 screen (255), two tetrahedra sharing a vertex (255) [thorough: + cube (4095)]; "
               "derived grids (refine, barycentric, segments, union) for sub-complexes with <= 3 elements and every 17th")
+    run.bound("union: all k-tuples (k <= 3, thorough 4) of 5 strip grids with domain index patterns [0], [3], [1,5], [2,2,7], [4,0,9] x {normalised, shifted, explicit}")
     run.assume("V-engine encoding: mathematical integers (int32/uint32 wrap-around not modelled), arrays as values, termination not proved")
     run.assume("grid_valid: the three vertices of an element are pairwise distinct (precondition of the edge-adjacency contracts)")
     return run.finish()
